@@ -107,6 +107,14 @@ dr_calc_edges(dr_basic_stat * bs, dr_pi_dag * G) {
 	  EDGE_COUNTS(k, w, w) += t->info.logical_edge_counts[k];
 	}
       }
+      if (t->info.kind == dr_dag_node_kind_section) {
+	/* a contracted section: the end edges of the tasks created in it
+	   lead to its successor; they are in nobody's logical counts
+	   as long as the parent is materialized, and enum_edges cannot
+	   list them any more */
+	int w = (t->info.worker == -1 ? nw : t->info.worker);
+	EDGE_COUNTS(dr_dag_edge_kind_end, w, w) += t->info.n_child_create_tasks;
+      }
     }    
   }
   for (i = 0; i < m; i++) {
